@@ -6,6 +6,7 @@ pub mod c07;
 pub mod c09;
 pub mod c10;
 pub mod c11;
+pub mod c12;
 pub mod c17;
 pub mod c18;
 
@@ -21,6 +22,7 @@ pub fn dispatch(p: &str, rep: &mut Report) -> bool {
         "C09" => c09::run(rep),
         "C10" => c10::run(rep),
         "C11" => c11::run(rep),
+        "C12" => c12::run(rep),
         "C17" => c17::run(rep),
         "C18" => c18::run(rep),
         _ => return false,
